@@ -995,7 +995,16 @@ class Message(ABC):
             value = self.__raw_get(name)
             if value is not PLACEHOLDER:
                 kwargs[name] = deepcopy(value)
+        # The constructor marks a message whose class has no fields as set (see
+        # __setattr__); copying must not change what the children report.
+        flags = [
+            (child, child._serialized_on_wire)
+            for child in kwargs.values()
+            if isinstance(child, Message)
+        ]
         new = self.__class__(**kwargs)  # type: ignore
+        for child, flag in flags:
+            child._serialized_on_wire = flag
         # State that is not determined by the field values alone.
         new.__dict__["_unknown_fields"] = self._unknown_fields
         new.__dict__["_serialized_on_wire"] = self._serialized_on_wire
@@ -1007,7 +1016,17 @@ class Message(ABC):
             value = self.__raw_get(name)
             if value is not PLACEHOLDER:
                 kwargs[name] = value
+        # The constructor marks a message whose class has no fields as set (see
+        # __setattr__); copying must not change what the children report - they
+        # are the original's own children here.
+        flags = [
+            (child, child._serialized_on_wire)
+            for child in kwargs.values()
+            if isinstance(child, Message)
+        ]
         new = self.__class__(**kwargs)  # type: ignore
+        for child, flag in flags:
+            child._serialized_on_wire = flag
         # State that is not determined by the field values alone.
         new.__dict__["_unknown_fields"] = self._unknown_fields
         new.__dict__["_serialized_on_wire"] = self._serialized_on_wire
